@@ -3,9 +3,9 @@
    sites is given for the transport at hand as letters: B (bytes in hand: len(body), n-8),
    D (declared length field), C (ContentLength); "-" for none.
      A <tr> <sites> <max> <decl|-> <sent> <valid 0/1>
-         -> "v=<P:n|413|INBAND|ERR|STARVE|MALFORMED> io=<n|-> fn=<0|1> client=<...> alt=<...> covers=<0|1>
-             framed=<n|-> truthful=<0|1> guard=<0|1>"
-     T                      -> the pinned and the repaired table, "tr=letters ..." twice, separated by "|"
+         -> "v=<P:n|413|INBAND|ERR|400|STARVE|MALFORMED> io=<n|-> fn=<0|1> client=<...> alt=<...> covers=<0|1>
+             framed=<n|-> truthful=<0|1>"
+     T                      -> the pinned and the original (pre-fix) table, "tr=letters ..." twice, separated by "|"
      H sock <len> <idx> | H udp <len> <idx> | H ws <idx>     -> header hex
      R sock <idx> | R udp <idx> | R ws <idx>                  -> the reject frame the model's server writes
      D sock <hex> | D udp <hex> | D ws <hex> | D http <status> -> what the transport's client makes of it
@@ -73,6 +73,7 @@ let verdict_str = function
   | Limit.Reject413 -> "413"
   | Limit.RejectInBand -> "INBAND"
   | Limit.RejectError -> "ERR"
+  | Limit.Reject400 -> "400"
   | Limit.Starve -> "STARVE"
   | Limit.Malformed -> "MALFORMED"
 
@@ -100,12 +101,12 @@ let run line =
     let framed = match Limit.framed tr decl sent with Some n -> string_of_z n | None -> "-" in
     (* the other thing the caller may get when the server's teardown overtakes its answer (tcp, unix) *)
     let alt = outcome_str (Limit.caller_outcome false tr v true Limit.TeardownFirst) in
-    Printf.sprintf "v=%s io=%s fn=%s client=%s alt=%s covers=%s framed=%s truthful=%s guard=%s"
+    Printf.sprintf "v=%s io=%s fn=%s client=%s alt=%s covers=%s framed=%s truthful=%s"
       (verdict_str v) io fn (outcome_str (Limit.client_decode (Limit.reply_of v))) alt
-      (b01 (Limit.covers tr qs)) framed (b01 (Limit.truthful tr decl sent)) (b01 (Limit.pinned_guard tr decl sent))
+      (b01 (Limit.covers tr qs)) framed (b01 (Limit.truthful tr decl sent))
   | ["T"] ->
     let show tab = String.concat " " (Stdlib.List.map (fun tr -> name_of tr ^ "=" ^ letters_of (tab tr)) Limit.all_transports) in
-    show Limit.pinned_sites ^ " | " ^ show Limit.repaired_sites
+    show Limit.pinned_sites ^ " | " ^ show Limit.original_sites
   | ["H"; "sock"; len; idx] -> hex_of_bytes (Frame.sock_make_header (z_of_string len) (z_of_string idx))
   | ["H"; "udp"; len; idx] -> hex_of_bytes (Frame.udp_make_header (z_of_string len) (z_of_string idx))
   | ["H"; "ws"; idx] -> hex_of_bytes (Frame.ws_make_header (z_of_string idx))
